@@ -283,7 +283,7 @@ def _length_terms(rate, tag):
   for v in (reps, lo, hi, spec):
     if v.kind != 'int':
       raise fpk.UnsupportedConstruct('a count is not an integer')
-  return L, d, reps.t, lo.t, hi.t, spec.t, tr.side, len(rets)
+  return L, d, reps.t, lo.t, hi.t, spec.t, tr.side, tr
 
 
 def _length_lemma(job):
@@ -296,7 +296,7 @@ def _length_lemma(job):
   violations = []
   for rate in (8000, 16000, 22050, 44100, 48000):
     try:
-      L, d, reps, lo, hi, spec, side, _ = _length_terms(rate, 'r%d' % rate)
+      L, d, reps, lo, hi, spec, side, tr_ = _length_terms(rate, 'r%d' % rate)
     except fpk.UnsupportedConstruct as e:
       return {'status': 'inconclusive', 'obligations': obligations,
               'error': 'cannot regenerate L-C20-2 from the source: %s' % e}
@@ -320,6 +320,23 @@ def _length_lemma(job):
         'backend': 'z3 nlsat', 'discharged': r == 'unsat'})
     if r == 'sat':
       m = s.model()
+      # the standard model over-approximates rounding: prefer a candidate
+      # that violates the conclusion with every rounding error at zero and
+      # by a whole sample (robust against the real rounding); fall back to
+      # the first model
+      for margin in (True, False):
+        s3 = z3.Solver()
+        s3.set('timeout', 30000)
+        s3.add(base)
+        s3.add(z3.Not(good))
+        s3.add([dl == 0 for dl in tr_.deltas])
+        if margin:
+          # well inside a sample: d*rate is not within 1/4 of an integer
+          fr = d * rate - z3.ToReal(z3.ToInt(d * rate))
+          s3.add(fr > 0.25, fr < 0.75)
+        if s3.check() == z3.sat:
+          m = s3.model()
+          break
       dv = m.eval(d, model_completion=True)
       violations.append({
           'label': 'L-C20-2 repeat_samples_to_duration returns a wrong number '
